@@ -189,7 +189,7 @@ class Gen:
             els = self.body(depth - 1) if self.rng.random() < 0.5 else None
             return ("if", clauses, els)
         if r < 0.68:
-            return ("for", self.rng.randint(0, 3), self.body(depth - 1), self.body(depth - 1) if self.rng.random() < 0.3 else None, self.rng.random() < 0.4)
+            return ("for", self.rng.randint(0, 3), self.body(depth - 1), self.body(depth - 1) if self.rng.random() < 0.3 else None, self.rng.choice([True, True, "call", False, False, False]))
         if r < 0.76:
             return ("while", self.rng.randint(0, 2), self.body(depth - 1))
         if r < 0.92:
@@ -225,6 +225,8 @@ def ctl_lines(stmts, rng, wc=[0]):
                                    '<%%def name="se%d()"></%%def>\\' % s[1], "<%text></%text>\\"]))
         elif k == "if":
             for i, (cond, body) in enumerate(s[1]):
+                if rng.random() < 0.2:      # the header continued over two lines with a backslash
+                    cond = "%s and \\\n%s   True" % (cond, pad)
                 out.append("%s%% %s %s:" % (pad, "if" if i == 0 else "elif", cond))
                 out += ctl_lines(body, rng)
             if s[2] is not None:
@@ -234,7 +236,9 @@ def ctl_lines(stmts, rng, wc=[0]):
         elif k == "for":
             wc[0] += 1
             out.append("%s%% for i%d in range(%d):" % (pad, wc[0], s[1]))
-            if s[4]:
+            if s[4] == "call":          # loop is read only from the body of a call: a scope of its own inside the loop
+                out.append('<%call expr="cb_()">${loop.index}/${loop.last}</%call>')
+            elif s[4]:
                 out.append("${loop.index}/${loop.last}")
             out += ctl_lines(s[2], rng)
             if s[3] is not None:
@@ -254,6 +258,8 @@ def ctl_lines(stmts, rng, wc=[0]):
             if s[1]:
                 out.append("${raise_(%r)}" % s[1])
             for h, body in s[3]:
+                if h and rng.random() < 0.25:
+                    h = "(%s, \\\n%s      OverflowError)" % (h, pad)
                 out.append("%s%% except%s:" % (pad, (" " + h) if h else ""))
                 out += ctl_lines(body, rng)
             out.append(pad + "% endtry")
@@ -399,6 +405,16 @@ def run(ctx):
             if res != "0True|\n":
                 ctx.violation({"template": src, "result": res, "expected": "0True|\n"}, "a for-header that Python accepts fails when the body reads loop",
                               tags=["c03.loop.header." + kind + tk if (kind != "plain" or tk) else "c03.loop.header"])
+    # a header continued over two lines with a backslash
+    for src, want in [("% for i in \\\n  [1, 2]:\n${loop.index}\n% endfor\n", "0\n1\n"), ("% for i, j in \\\n  [(1, 2)]:\n${loop.index}${j}\n% endfor\n", "02\n"),
+                      ("% for i in [1,\\\n 2]:\n${loop.last}\n% endfor\n", "False\nTrue\n")]:
+        ctx.evaluations += 1
+        try:
+            res = Template(src).render()
+        except Exception as e:  # noqa
+            res = "raised %s: %s" % (type(e).__name__, str(e)[:80])
+        if res != want:
+            ctx.violation({"template": src, "result": res, "expected": want}, "a continued for-header fails when the body reads loop", tags=["c03.loop.header.continued"])
     # the iterable expression may contain colons, brackets and the word in
     for it, n in [("{1: 2}", 1), ("[x for x in data]", 1), ("data if data else []", 1), ("(y for y in data if y in data)", 1), ("data[0:1]", 1), ("dict(a=1).items()", 1), ("lambda_in(data)", 1)]:
         ctx.evaluations += 1
@@ -452,7 +468,7 @@ def run(ctx):
     for _ in range(nc):
         g = Gen(rng)
         tree = [g.stmt(3) for _ in range(rng.randint(1, 4))]
-        src = "\n".join(ctl_lines(tree, rng)) + "\n"
+        src = '<%def name="cb_()">${caller.body()}</%def>\\\n' + "\n".join(ctl_lines(tree, rng)) + "\n"
         ctx.evaluations += 1
         ctx.nontrivial.add(src)
         rec_lines, rec_levels, passes = [], [], []
